@@ -262,6 +262,10 @@ def worker_couple(case, seed):
         sts = {}
         for a in sel:
             sts[a.animal_type] = _sym_state(E, a, a.animal_type, light=case.get("light", False))
+            if case.get("no_calves"):
+                # breeding has stopped (reduced strategy after one gestation period): nothing is born this month, the dairy herd still retires animals
+                a.pregnant_animals_total[-1] = 0.0
+                a.pregnant_animals_birthing_this_month[-1] = 0.0
         rums = [a for a, a0 in zip(sel, sel0) if a0 in ruminants]
         with patched(ap, fd, isinstance_=True):
             out = _run_step(ap, fd, month, sel, rums, co, lambda x: sts[x.animal_type]["fed"])
@@ -296,6 +300,10 @@ def replay_couple(case, cx):
     sel = [x for x in animals if x.animal_type in case["animals"]]
     m = vlib.model_floats(cx["model"])
     sts = {a.animal_type: _replay_state(a, m, a.animal_type) for a in sel}
+    if case.get("no_calves"):
+        for a in sel:
+            a.pregnant_animals_total[-1] = 0.0
+            a.pregnant_animals_birthing_this_month[-1] = 0.0
     bad = []
     try:
         out = _run_step(ap, fd, case["month"], sel, [a for a in sel if a in ruminants], co, lambda x: sts[x.animal_type]["fed"])
@@ -371,6 +379,8 @@ def main(tier, seed, only=None):
             for p in pairs[: (len(pairs) if thorough else 2)]:
                 for mth in ([0, 9, 14] if thorough else [0, 12]):
                     couples.append(dict(country=c, strategy=s, animals=p, month=mth, light=not thorough))
+                    if mth != 0:
+                        couples.append(dict(country=c, strategy=s, animals=p, month=mth, light=True, no_calves=True))
             # two meat herds of one size class compete for the same labour hours
             for size in ("small", "medium", "large"):
                 same = [a.animal_type for a in animals if a.animal_size == size and a.animal_function == "meat"][:2]
